@@ -393,6 +393,13 @@ def subscript(ip, base, idx, node=None):
     if isinstance(base, Obj):
         if isinstance(ci, str):
             return getattr_(ip, base, ci, node)
+        if isinstance(ci, tuple) and base.is_record and base.fields is not None:
+            # Record[(names...)] -> the sub-record of the fields whose name occurs in the tuple
+            picked = [base.attrs[f] for f in base.fields if f in ci]
+            if len(picked) == 1:
+                return picked[0]
+            if picked:
+                return make_cat(ip, picked)
         il = getattr(base, 'items_list', None)
         if il is not None:
             if isinstance(ci, int):
